@@ -114,6 +114,7 @@ fn main() {
                 }
                 serde_json::to_writer(&mut out, &rec).unwrap();
                 out.write_all(b"\n").unwrap();
+                out.flush().unwrap();
                 rep += 1;
                 if rep >= repeat {
                     rep = 0;
